@@ -76,6 +76,10 @@ func smtpOracles(c *core.Ctx, sc *smtpCase, res *dialogueResult, st *smtpStack) 
 			}
 			k++
 		}
+		// the pipelined dialogue ends with QUIT: the server must have answered every line up to and including it
+		if n := len(res.replies); n == 0 || res.replies[n-1].code != 221 {
+			c.Fail("one-reply-per-line", sc.describe(), fmt.Sprintf("a client that sent the whole dialogue in one write got %d replies and never the 221 to its final QUIT (the session stalled or dropped input)", n), "")
+		}
 	}
 	cas := sc.describe()
 	fail := func(oracle, detail string) { c.Fail(oracle, cas, detail, "") }
